@@ -229,6 +229,7 @@ pub struct CodegenContext {
     macro_depth: usize,
     macro_depth_exceeded: bool,
     nesting_depth: usize,
+    defining_loop_index: bool,
 
     test_elements: Vec<TestElement>,
 
@@ -283,6 +284,7 @@ impl CodegenContext {
             macro_depth: 0,
             macro_depth_exceeded: false,
             nesting_depth: 0,
+            defining_loop_index: false,
             test_elements: vec![],
             source_map: SourceMap::default(),
             import_stack: vec![],
@@ -470,6 +472,25 @@ impl CodegenContext {
                 symbol_nx
             }
             None => {
+                // A new label or constant may hide one with the same name in an enclosing scope. Whatever referred to that
+                // name earlier in this pass, from here or from a scope inside this one, was bound to the outer symbol,
+                // so that needs another pass. (The 'index' of a loop comes and goes with every iteration. It is defined
+                // before anything in the loop's body can refer to it.)
+                if matches!(ty, SymbolType::Label | SymbolType::Constant)
+                    && span.is_some()
+                    && !id.is_special()
+                    && !self.defining_loop_index
+                {
+                    let hides_outer_symbol = self
+                        .symbols
+                        .parent(self.current_scope_nx)
+                        .map(|outer_nx| self.symbols.query(outer_nx, &id).is_some())
+                        .unwrap_or(false);
+                    if hides_outer_symbol {
+                        maybe_require_new_pass = true;
+                    }
+                }
+
                 let (parent, id) = path.clone().split();
                 let parent_nx = self.symbols.ensure_index(self.symbols.root, &parent);
                 let nx = self.symbols.insert(parent_nx, id, symbol);
@@ -1089,10 +1110,13 @@ impl CodegenContext {
                             loop_scope.as_ref().clone()
                         };
                         self.with_scope(&iteration_scope, Some(block), |s| {
-                            s.add_symbol(
+                            s.defining_loop_index = true;
+                            let added = s.add_symbol(
                                 "index",
                                 s.symbol(expr.span, index, SymbolType::Constant),
-                            )?;
+                            );
+                            s.defining_loop_index = false;
+                            added?;
                             let result = s.emit_tokens(&block.inner);
                             s.remove_symbol("index");
                             result
